@@ -2,9 +2,10 @@
   C28 — Prefetched and vectored SFTP reads return exactly the file's bytes.
   Property theorems only.  Model: PV/Model/Prefetch.lean (reader, prefetch threads, short-reading server; one
   action = one atomic region; `run s acts` = the state after the schedule `acts`, any length, any interleaving).
-  Invariant proofs: PV/Model/PrefetchInv.lean, PV/Model/PrefetchLive.lean.
+  Invariant proofs: PV/Model/PrefetchInv.lean (content), PV/Model/PrefetchLive.lean (everything a waiting party depends
+  on is in flight), PV/Model/PrefetchUniq.lean (request numbers are fresh and in flight at most once).
 -/
-import PV.Model.PrefetchLive
+import PV.Model.PrefetchUniq
 import PV.Generated.C28
 namespace PV.Props.C28
 open PV PV.Prefetch
@@ -50,19 +51,25 @@ example :
 
 /-! ## no hang -/
 
-/-- **A reader that waits for a response is never stuck** (partial: see below).  After any schedule of any
-    program whose caps are `None` or ≥ 1: if the reader is blocked waiting for a response packet (inside
-    `_read_prefetch` or inside a synchronous read) and none is queued, then some other task — the server or a
-    prefetch thread — is enabled.  Before the fix this failed: a STATUS answer left its extent behind, so with
-    nothing in flight the reader waited and a capped prefetch thread spun.
-    Partial because one other blocking point of the reader is not covered: the spin in `_async_response` that waits
-    for `_prefetch_thread` to register the extent of an answer that has already arrived (the thread is between
-    "packet sent" and "extent registered" then; showing that it is *that* thread needs request-number uniqueness,
-    which is not part of the invariant). -/
-theorem waiting_reader_not_stuck_partial (file : Bytes) (maxReq : Nat) (acts : List Act)
-    (hcaps : ∀ a ∈ acts, actOK a) (hw : WaitsForResponse (run (init file maxReq) acts)) :
-    ∃ a, nonReader a ∧ (step (run (init file maxReq) acts) a).isSome = true :=
-  waiting_not_stuck (run_live (init_live file maxReq) acts hcaps) hw
+/-- Request numbers are never reused while in flight: after any schedule every request number occurs at most once
+    among the requests on the wire, the queued responses and the response being dispatched; a registered extent is
+    keyed by the number of a request that is still in flight, and an answer whose extent is not registered yet
+    belongs to a prefetch thread that is between "packet sent" and "extent registered". -/
+theorem request_numbers_unique (file : Bytes) (maxReq : Nat) (acts : List Act) (hcaps : ∀ a ∈ acts, actOK a) :
+    Live (run (init file maxReq) acts) ∧ Uniq (run (init file maxReq) acts) :=
+  run_live_uniq (init_live file maxReq) (init_uniq file maxReq) acts hcaps
+
+/-- **A blocked reader is never stuck.**  After any schedule of any program whose caps are `None` or ≥ 1: whenever
+    the reader cannot take its next step — it waits for a response packet (inside `_read_prefetch` or inside a
+    synchronous read) and none is queued, **or** it spins in `_async_response` because the answer in hand arrived
+    before `_prefetch_thread` registered its extent — some other task (the server or a prefetch thread) is enabled.
+    Before the fix this failed: a STATUS answer left its extent behind, so with nothing in flight the reader
+    waited and a capped prefetch thread spun. -/
+theorem waiting_reader_not_stuck (file : Bytes) (maxReq : Nat) (acts : List Act)
+    (hcaps : ∀ a ∈ acts, actOK a) (hb : ReaderBlocked (run (init file maxReq) acts)) :
+    ∃ a, nonReader a ∧ (step (run (init file maxReq) acts) a).isSome = true := by
+  obtain ⟨hl, hu⟩ := run_live_uniq (init_live file maxReq) (init_uniq file maxReq) acts hcaps
+  exact blocked_not_stuck hl hu hb
 
 /-- The other tasks cannot keep running for ever without the reader: every non-reader action strictly decreases
     the measure `mu` (7 per chunk still to be requested, 2 per request on the wire, 1 per queued response). -/
@@ -72,31 +79,53 @@ theorem nonreader_actions_decrease_measure (s s' : St) (a : Act) (hn : nonReader
 
 /-- **Bounded wait.**  From any reachable state, let the server and the prefetch threads run (any interleaving,
     every action enabled when taken): that takes at most `mu` steps, and once none of them can move the reader is
-    not waiting for a response — so under any fair schedule a waiting reader gets its answer. -/
-theorem bounded_wait_partial (file : Bytes) (maxReq : Nat) (acts : List Act) (hcaps : ∀ a ∈ acts, actOK a)
+    not blocked — so under any fair schedule a blocked reader proceeds. -/
+theorem bounded_wait (file : Bytes) (maxReq : Nat) (acts : List Act) (hcaps : ∀ a ∈ acts, actOK a)
     (others : List Act) (ho : ∀ a ∈ others, nonReader a) (s' : St)
     (hrun : runStrict (run (init file maxReq) acts) others = some s') :
     others.length ≤ mu (run (init file maxReq) acts) ∧
-    ((∀ a, nonReader a → step s' a = none) → ¬ WaitsForResponse s') := by
+    ((∀ a, nonReader a → step s' a = none) → ¬ ReaderBlocked s') := by
   constructor
   · have := nonReader_run_bounded ho hrun
     omega
-  · intro hnone hw
-    have hl := runStrict_live (run_live (init_live file maxReq) acts hcaps)
-      (fun a ha => nonReader_actOK (ho a ha)) hrun
-    obtain ⟨a, ha, hen⟩ := waiting_not_stuck hl hw
+  · intro hnone hb
+    obtain ⟨hl0, hu0⟩ := run_live_uniq (init_live file maxReq) (init_uniq file maxReq) acts hcaps
+    obtain ⟨hl, hu⟩ := runStrict_live_uniq hl0 hu0 (fun a ha => nonReader_actOK (ho a ha)) hrun
+    obtain ⟨a, ha, hen⟩ := blocked_not_stuck hl hu hb
     rw [hnone a ha] at hen
     cases hen
+
+/-- **cap = 0** (`max_concurrent_requests=0`, outside the property's range None, 1..8 and excluded by `actOK`): the
+    code's test `len(self._prefetch_extents) < 0` never holds, so the prefetch thread never sends anything while
+    `_start_prefetch` has cleared `_prefetch_done`: the first read outside the buffers waits for a response with
+    nothing outstanding and nothing enabled.  The model does exactly that (and so does the real code: the lockstep
+    run replays this case every time). -/
+theorem cap_zero_starves_witness :
+    let s := run (init [1, 2, 3, 4, 5, 6, 7, 8] 4) [.rOp (.readv [(2, 3)] (some 0)), .rOp (.seek 2), .rOp (.read (some 3))]
+    ReaderBlocked s ∧ (step s (.serve 1)).isSome = false ∧ (step s (.tCheck 0)).isSome = false ∧
+    (step s (.tAlloc 0)).isSome = false ∧ (step s (.tSend 0)).isSome = false ∧ (step s (.tReg 0)).isSome = false := by
+  refine ⟨⟨by decide, by decide⟩, by decide, by decide, by decide, by decide, by decide⟩
 
 /-- non-vacuity: a reachable state in which the reader does wait for a response (capped readv, first chunk beyond
     EOF, nothing answered yet), and the enabled peer the theorem promises. -/
 example :
-    WaitsForResponse (run (init [1, 2, 3, 4, 5, 6, 7, 8] 4)
+    ReaderBlocked (run (init [1, 2, 3, 4, 5, 6, 7, 8] 4)
       [.rOp (.readv [(20, 3), (2, 3)] (some 1)), .tCheck 0, .tAlloc 0, .tSend 0, .tReg 0,
        .rOp (.seek 20), .rOp (.read (some 3))]) ∧
     (step (run (init [1, 2, 3, 4, 5, 6, 7, 8] 4)
       [.rOp (.readv [(20, 3), (2, 3)] (some 1)), .tCheck 0, .tAlloc 0, .tSend 0, .tReg 0,
        .rOp (.seek 20), .rOp (.read (some 3))]) (.serve 1)).isSome = true := by
-  refine ⟨⟨by decide, Or.inl ⟨⟨20, some 3, [], 3⟩, by decide⟩⟩, by decide⟩
+  refine ⟨⟨by decide, by decide⟩, by decide⟩
+
+/-- non-vacuity of the spin case: the answer is in the reader's hands (`dispPf`) while the thread has sent the
+    request but not registered the extent; the reader is blocked and `tReg` is the enabled peer. -/
+example :
+    ReaderBlocked (run (init [1, 2, 3, 4, 5, 6, 7, 8] 4)
+      [.rOp (.readv [(2, 3)] none), .tCheck 0, .tAlloc 0, .tSend 0, .serve 3, .rOp (.seek 2), .rOp (.read (some 3)),
+       .rStep]) ∧
+    (step (run (init [1, 2, 3, 4, 5, 6, 7, 8] 4)
+      [.rOp (.readv [(2, 3)] none), .tCheck 0, .tAlloc 0, .tSend 0, .serve 3, .rOp (.seek 2), .rOp (.read (some 3)),
+       .rStep]) (.tReg 0)).isSome = true := by
+  refine ⟨⟨by decide, by decide⟩, by decide⟩
 
 end PV.Props.C28
